@@ -212,7 +212,7 @@ fn do_op(sh: &Shared, op: &OpSpec, who: usize) -> String {
             l.ops_done += 1;
             let name = if zeroed { "alloc_zeroed" } else { "alloc" };
             if p.is_null() {
-                if live_before + size > limit {
+                if live_before.saturating_add(size) > limit {
                     l.refused_by_limit += 1;
                 } else {
                     // Either the parent refused or the refusal was conservative
@@ -265,6 +265,20 @@ fn do_op(sh: &Shared, op: &OpSpec, who: usize) -> String {
             l.ops_done += 1;
             if p.is_null() {
                 // Refused: the original block must be intact and still owned.
+                if !simkit::shim::alloc::registry_is_live(b.ptr) {
+                    l.fail(
+                        "refused-realloc-damaged-block",
+                        format!(
+                            "realloc({}->{}, align {}) was refused, but the original block was handed back to the parent allocator: the caller still owns a block that no longer exists",
+                            b.size, new_size, b.align
+                        ),
+                    );
+                    sh.world.event("op_refused", who as u64, new_size as u64);
+                    return format!(
+                        "t{} realloc(block{} {}->{}) -> null, and the original block was released",
+                        who, b.id, b.size, new_size
+                    );
+                }
                 if let Some(i) = unsafe { check(b.ptr as *const u8, b.id, b.size) } {
                     l.fail(
                         "refused-realloc-damaged-block",
@@ -274,7 +288,7 @@ fn do_op(sh: &Shared, op: &OpSpec, who: usize) -> String {
                         ),
                     );
                 }
-                if b.size.max(new_size) > limit || l.live + b.size + new_size > limit {
+                if b.size.max(new_size) > limit || l.live.saturating_add(b.size).saturating_add(new_size) > limit {
                     l.refused_by_limit += 1;
                 } else {
                     l.refused_conservative += 1;
@@ -314,6 +328,16 @@ fn do_op(sh: &Shared, op: &OpSpec, who: usize) -> String {
                 Some(b) => b,
                 None => return format!("t{} dealloc: no block", who),
             };
+            if !simkit::shim::alloc::registry_is_live(b.ptr) {
+                sh.ledger.lock().unwrap().fail(
+                    "block-damaged",
+                    format!(
+                        "block{} of {} bytes was handed back to the parent allocator while its owner still held it",
+                        b.id, b.size
+                    ),
+                );
+                return format!("t{} dealloc(block{}): already released", who, b.id);
+            }
             if let Some(i) = unsafe { check(b.ptr as *const u8, b.id, b.size) } {
                 sh.ledger.lock().unwrap().fail(
                     "block-damaged",
@@ -474,13 +498,43 @@ fn run_sandbox_peak(sc: &Scenario, holds: &[u64], chooser: Chooser, keep_log: bo
 
 fn sizes_for(limit: u64) -> Vec<u64> {
     let l = limit;
-    let mut v = vec![1, 8, l / 2, l / 2 + 1, l - 1, l, l + 1, l / 3, 24];
+    let mut v = vec![1, 8, l / 2, l / 2 + 1, l - 1, l, l.saturating_add(1), l / 3, 24];
+    if giant(limit) {
+        // Something real to hold while requests of about the limit are in flight.
+        v.extend([1 << 20, (1 << 20) + 4096, 3 << 19, 64, 4096]);
+    }
     v.retain(|s| *s >= 1);
     v
 }
 
 /// Close to isize::MAX, the largest size a Layout can have.
 const HUGE: u64 = (isize::MAX as u64) - 63;
+
+/// Limits that no machine can reach: "no limit" (usize::MAX, what a process
+/// that never calls set_limit has), isize::MAX as an "unlimited" marker, and
+/// values a little below 2^63 and 2^62. With them a handful of requests that
+/// each fit the limit add up to more than the counter can hold.
+const GIANT_LIMITS: [u64; 4] = [
+    u64::MAX,
+    isize::MAX as u64,
+    (1 << 63) - (1 << 19),
+    (1 << 62) - (1 << 18),
+];
+
+fn giant(limit: u64) -> bool {
+    limit >= 1 << 60
+}
+
+/// A size/alignment pair that Layout accepts: sizes are capped at isize::MAX,
+/// and a size within `align` of it keeps alignment 1.
+fn fit_layout(size: u64, align: u32) -> (u64, u32) {
+    let size = size.min(isize::MAX as u64);
+    if size > (isize::MAX as u64) - (align as u64 - 1) {
+        (size, 1)
+    } else {
+        (size, align)
+    }
+}
 
 fn gen_ops(rng: &mut Rng, limit: u64, n: usize) -> Vec<OpSpec> {
     let sizes = sizes_for(limit);
@@ -497,7 +551,7 @@ fn gen_ops(rng: &mut Rng, limit: u64, n: usize) -> Vec<OpSpec> {
     }
     for _ in 0..n {
         let align = *rng.pick(&[1u32, 8, 8, 16, 64]);
-        let size = if rng.chance(1, 6) {
+        let size = if rng.chance(1, 6) && !giant(limit) {
             1 + rng.below(limit + 2)
         } else if rng.chance(1, 12) {
             // A request that no machine can satisfy (the parent allocator refuses
@@ -507,6 +561,7 @@ fn gen_ops(rng: &mut Rng, limit: u64, n: usize) -> Vec<OpSpec> {
         } else {
             *rng.pick(&sizes)
         };
+        let (size, align) = fit_layout(size, align);
         ops.push(match rng.weighted(&w) {
             0 => OpSpec::Alloc { size, align },
             1 => OpSpec::AllocZeroed { size, align },
@@ -619,7 +674,7 @@ impl Harness for C19 {
         if let Some(sc) = systematic(index, tier) {
             return sc;
         }
-        let limit = *rng.pick(&[64u64, 1000, 4096, 1 << 20]);
+        let mut limit = *rng.pick(&[64u64, 1000, 4096, 1 << 20]);
         if rng.chance(1, 64) {
             // The peak as reported through the sandbox (child.rs).
             let n = 1 + rng.below(5) as usize;
@@ -645,6 +700,11 @@ impl Harness for C19 {
         // Sub-batches are chosen by the run's own PRNG (not by index) so that
         // every worker process gets the same mix.
         let concurrent = rng.chance(1, 8);
+        // Limits beyond any machine: one concurrent run in eight (and a few
+        // sequential ones).
+        if (concurrent && rng.chance(1, 8)) || rng.chance(1, 256) {
+            limit = *rng.pick(&GIANT_LIMITS);
+        }
         let mut phases = Vec::new();
         if concurrent {
             let max_threads = match tier {
@@ -725,6 +785,7 @@ impl Harness for C19 {
             ..WorldCfg::default()
         };
         let world = World::new(cfg, chooser);
+        simkit::shim::alloc::registry_begin();
         let sh = Arc::new(Shared {
             alloc: Alloc::new(sc.limit as usize),
             limit: sc.limit as usize,
@@ -823,19 +884,19 @@ impl Harness for C19 {
             quiescent(&sh2, true, "after freeing every block");
         };
         let (report, _) = world.run(main);
-        // Whatever happened, release memory still held (violation paths).
-        loop {
-            let b = sh.ledger.lock().unwrap().take(0);
-            match b {
-                Some(b) => unsafe {
-                    std::alloc::System
-                        .dealloc(b.ptr as *mut u8, Layout::from_size_align(b.size, b.align).unwrap())
-                },
-                None => break,
-            }
-        }
+        // Whatever happened, memory still held (violation paths) and everything
+        // in quarantine goes back to the system now.
+        let anomalies = simkit::shim::alloc::registry_end();
         let l = sh.ledger.lock().unwrap();
         let mut violation = l.violation.clone();
+        if violation.is_none() {
+            if let Some(a) = anomalies.first() {
+                violation = Some(Violation {
+                    clause: "block-released-twice".into(),
+                    detail: format!("{} ({} such request(s) in this history)", a, anomalies.len()),
+                });
+            }
+        }
         if violation.is_none() && report.end != RunEnd::Completed {
             violation = Some(Violation {
                 clause: "did-not-finish".into(),
@@ -1012,6 +1073,11 @@ impl Harness for C19 {
         if let Some(h) = &sc.sandbox_holds {
             return format!("sandbox-holds:{}", h.len());
         }
+        if giant(sc.limit) && sc.limit != u64::MAX && sc.concurrent() {
+            // One cause whatever the operations are: requests that each fit such a
+            // limit, in flight together, add up to more than 2^64.
+            return "concurrent-requests-under-a-limit-of-2^60-or-more".into();
+        }
         let mut parts = Vec::new();
         for p in &sc.phases {
             let mut ts = Vec::new();
@@ -1036,6 +1102,8 @@ impl Harness for C19 {
     fn label(&self, sc: &Scenario) -> String {
         if sc.sandbox_holds.is_some() {
             "peak-reported-through-sandbox".into()
+        } else if sc.concurrent() && giant(sc.limit) {
+            "concurrent-giant-limit".into()
         } else if sc.concurrent() {
             "concurrent".into()
         } else if sc.ops() > 6 {
@@ -1048,12 +1116,15 @@ impl Harness for C19 {
     fn rule(&self) -> String {
         "The first run indices of a batch enumerate every sequential history of length 1..3 (limit 64) and 1..4 (limit 1000; thorough: 1..5) over 22 operations \
          (alloc/alloc_zeroed x 5 sizes, realloc of block 0|1 x 5 sizes, dealloc of block 0|1; sizes 1, 8, L/2, L, L+1), checked after every operation; all later indices are random: \
-         one evaluation = one seeded operation history against a private real Alloc::new(limit), limit in {64,1000,4096,2^20}, \
+         one evaluation = one seeded operation history against a private real Alloc::new(limit), limit in {64,1000,4096,2^20} \
+         (one concurrent history in eight and one sequential in 256: a limit beyond any machine - usize::MAX, isize::MAX, 2^63-2^19, 2^62-2^18 - \
+         with sizes {1,8,24,64,4096,1 MiB,1.5 MiB,L/3,L/2,L/2+1,L-1,L,L+1} capped at what a Layout accepts), \
          sizes from {1,8,24,L/3,L/2,L/2+1,L-1,L,L+1,random, and (1 in 14) close to isize::MAX}, ops alloc/alloc_zeroed/realloc(up/down)/dealloc, checked against a \
          reference ledger. 7 of 8 runs are sequential (1..6 ops, 1 in 64 of them 50..200; thorough 1 in 16 with 50..500), checked after every operation; 1 of 8 is \
          concurrent: 1..2 phases of 2..4 (thorough up to 16) controlled threads with 1..6 ops each, every atomic operation of \
          alloc.rs a scheduling point under a seeded policy, joined and checked at each quiescent point. The parent allocator refuses \
-         with a per-run probability (0/5/25%). Non-trivial = at least one refusal, or more than one successful operation, or (concurrent) \
+         with a per-run probability (0/5/25%); it keeps a registry of the blocks it handed out and a quarantine of those given back, so a block \
+         released behind its owner's back or released twice is a verdict. Non-trivial = at least one refusal, or more than one successful operation, or (concurrent) \
          at least one non-default scheduling decision; distinct = distinct digest of (scenario, every scheduling step, every atomic \
          operation, every operation outcome)."
             .into()
